@@ -191,6 +191,9 @@ def run_sequence(drv, cfg, wiring, m0, seq):
     drv.cmd("NEW %d %d %d %d %d 64" % (wiring, cfg[0], cfg[1], cfg[2], m0))
     ck = Checker(cfg, wiring, m0, max([s[0] for s in seq] + [1]))
     for i, (d, ready, value) in enumerate(seq):
+        if value == "echo":
+            # a valid response equal to what the clock shows at that moment (reference and clock did not drift)
+            value = (ck.cands[0][1] + (ck.m + d - ck.cands[0][0]) // 1000) if ck.cands else 100000
         r = drv.cmd("STEP %d %d %d" % (d, 1 if ready else 0, value))
         msg = ck.step(d, ready, value, r)
         if msg:
@@ -205,6 +208,8 @@ def outcome_value(kind, m):
         return (True, I32MIN)
     if kind == "const":
         return (True, 100000)
+    if kind == "echo":
+        return (True, "echo")
     return (True, 200000 + m // 1000 * 3)
 
 
@@ -212,7 +217,7 @@ def enum_job(a):
     exe, cfg, wiring, depth, first = a
     drv = Drv(exe)
     steps = STEPS[cfg]
-    outs = ["notready", "const", "varying", "invalid"]
+    outs = ["notready", "const", "varying", "invalid", "echo"]
     alphabet = [(s, o) for s in steps for o in outs]
     n = 0
     classes = set()
@@ -280,7 +285,7 @@ def run(ctx):
             ((2, 5, 10), 2, 5 if thorough else 4), ((60, 60, 1000), 1, 5 if thorough else 4),
             ((7, 1, 100), 0, 4), ((7, 1, 100), 4, 4)]
     for cfg, wiring, depth in plan:
-        for first in range(len(STEPS[cfg]) * 4):
+        for first in range(len(STEPS[cfg]) * 5):
             jobs.append((exe, cfg, wiring, depth, first))
     allclasses = set()
     fails = []
@@ -293,7 +298,7 @@ def run(ctx):
     hstats = {"n": 0, "fail_after_success": 0, "late_ready_after_timeout": 0, "saturation": 0}
     hfails = []
 
-    step_strategy = st.tuples(st.integers(0, 8), st.sampled_from(["notready", "notready", "const", "varying", "invalid"]))
+    step_strategy = st.tuples(st.integers(0, 8), st.sampled_from(["notready", "notready", "const", "varying", "invalid", "echo"]))
 
     @hypothesis.seed(ctx.seed)
     @settings(max_examples=4000 if thorough else 600, deadline=None, database=None, phases=[Phase.generate],
@@ -357,7 +362,7 @@ def run(ctx):
     for c in sorted(allclasses, key=len)[-3:]:
         ctx.sample({"fsm_event_trace": list(c)})
     drv.close()
-    ctx.rule = ("(1) exhaustive: all sequences over {step sizes} x {not ready, valid(const), valid(varying), invalid} to depth "
+    ctx.rule = ("(1) exhaustive: all sequences over {step sizes} x {not ready, valid(const), valid(varying), valid(= current reading), invalid} to depth "
                 + ("5-6" if thorough else "4-5") + " for 8 (config, wiring) combinations; (2) Hypothesis-generated histories of 20.."
                 + ("300" if thorough else "120") + " steps over all 5 configurations, 5 wirings and counter starts near 2^16/2^31/2^32. "
                 "Each loop() reply (clock reading, last-sync time, logged calls on the fake clocks) is checked against invariants "
